@@ -413,6 +413,27 @@ struct StrPool {
         else if (op == "set32fail") { Block<char32_t> d = units<char32_t>(f[2]); at(o).set(ST::utf32_buffer(d.data(), d.size())); }
         else if (op == "from16fail") { Block<char16_t> d = units<char16_t>(f[2]); at(o) = S::from_utf16(d.data(), d.size()); }
         else if (op == "latin1fail") { ST::char_buffer r = at(o).to_latin_1(false); (void)r; }              // char >= 0x100
+        else if (op == "tobuffail" || op == "tobufvfail") {   // out-parameter conversion: result holds a previous value
+            Block<char> d = units<char>(f[2]);
+            ST::char_buffer result(d.data(), d.size());
+            try {
+                if (op == "tobuffail") at(o).to_buffer(result, false, false);
+                else {
+#pragma GCC diagnostic push
+#pragma GCC diagnostic ignored "-Wdeprecated-declarations"
+                    at(o).to_buffer(result, false, ST::check_validity);
+#pragma GCC diagnostic pop
+                }
+            } catch (...) { extra = ",arg=" + hex(result); throw; }
+            extra = ",arg=" + hex(result);
+        }
+        else if (op == "tostdfail") {
+            Block<char> d = units<char>(f[2]);
+            std::string result(d.data(), d.size());
+            try { at(o).to_std_string(result, false, false); }
+            catch (...) { extra = ",arg=" + hex(ST::char_buffer(result.data(), result.size())); throw; }
+            extra = ",arg=" + hex(ST::char_buffer(result.data(), result.size()));
+        }
         else if (op == "hexfail") { Block<char> d = units<char>(f[2]); ST::char_buffer r = ST::hex_decode(S::from_validated(d.data(), d.size())); at(o) = r; }
         else if (op == "b64fail") { Block<char> d = units<char>(f[2]); ST::char_buffer r = ST::base64_decode(S::from_validated(d.data(), d.size())); at(o) = r; }
         else if (op == "fmtfail") {
